@@ -84,11 +84,15 @@ NWORKERS = max(2, min(8, (os.cpu_count() or 4) // 2))
 
 
 # ---------------------------------------------------------------- programs
-def node(i, mr=0, rf=0, base=1, script=(), dflt=OK, body=(), extra=None, shift=None, decl="t"):
+def node(i, mr=0, rf=0, base=1, script=(), dflt=OK, body=(), extra=None, shift=None, decl="t", blob=None, bigres=False):
     """mr = the max_retries the task DECLARES (decl 't': task-level option, explicit zero included; decl 'a': option
     absent at task level, mr is the app-level value of the case); extra / shift: further keyword arguments of the
     call (per-call parameter / common_args of its group)"""
-    return {"id": i, "mr": mr, "rf": rf, "decl": decl, "base": base, "extra": extra, "shift": shift,
+    if blob or bigres:       # large payloads (see tasks_c19): blob = ("list" | "str", v) -> a big argument; bigres -> a big result
+        big = {"blob": {"kind": blob[0], "v": blob[1]} if blob else None, "bigres": bool(bigres)}
+    else:
+        big = {}
+    return {"id": i, "mr": mr, "rf": rf, "decl": decl, "base": base, "extra": extra, "shift": shift, **big,
             "script": [list(s) for s in script], "dflt": list(dflt), "body": [list(b) for b in body]}
 
 
@@ -171,7 +175,7 @@ def coq_act(a):
 
 
 def coq_prog(n):
-    hdr = (f"(mkH {n['id']} {n['mr']} {RF_COQ[n['rf']]} {n['base'] + (n.get('extra') or 0) + (n.get('shift') or 0)} "
+    hdr = (f"(mkH {n['id']} {n['mr']} {RF_COQ[n['rf']]} {n['base'] + (n.get('extra') or 0) + (n.get('shift') or 0) + (n.get('blob') or {}).get('v', 0)} "
            f"[{'; '.join(coq_act(a) for a in n['script'])}] {coq_act(n['dflt'])})")
     return f"(Node {hdr} {coq_stmts(n['body'])})"
 
@@ -422,6 +426,35 @@ def corpus_cases():
     return cs
 
 
+def large_cases(thorough):
+    """LARGE payloads (arguments of ~400 KB / 200 KB serialized, results of ~120 KB; see tasks_c19): calls whose
+    payloads have the same size and differ only in the middle, passed singly and inside groups.  Sync mode never
+    serialises them; distributed execution moves them through the serializer / client data store / state backend."""
+    def big(i, v, kind="list", **kw):
+        return node(i, base=1, blob=(kind, v), **kw)
+    cs = [
+        ("large:args-two-calls", {"top": "call", "progs": [node(1, body=[["call", big(2, 3)], ["call", big(3, 5)]])]}),
+        ("large:args-group-top", {"top": "group", "progs": [big(2, 1), big(3, 2), big(4, 3)]}),
+        ("large:results-group-top", {"top": "group", "progs": [node(2 + j, base=b, bigres=True) for j, b in enumerate((2, 5, 7))]}),
+    ]
+    if thorough:
+        cs += [
+            ("large:str-group-top", {"top": "group", "progs": [big(2, 4, "str"), big(3, 6, "str")]}),
+            ("large:str-two-directs", {"top": "call", "progs": [node(1, body=[["direct", big(2, 1, "str")], ["direct", big(3, 8, "str")]])]}),
+            ("large:dpar-top", {"top": "dpar", "progs": [big(2, 2), big(3, 9), big(4, 4)]}),
+            ("large:args-and-results-nested", {"top": "call", "progs": [node(1, bigres=True, body=[
+                ["group", [big(2, 4, bigres=True), big(3, 6, bigres=True)]], ["direct", big(4, 2, "str", bigres=True)]])]}),
+            ("large:batch2-group-5", {"top": "group", "tbatch": 2, "progs": [big(2 + j, j + 1) for j in range(5)]}),
+            ("large:nobatch-common", {"top": "group", "tbatch": 0, "shift": 2, "progs": [big(2, 1, shift=2), big(3, 7, shift=2, extra=3)]}),
+            ("large:retry", {"top": "call", "progs": [node(1, body=[["group", [
+                big(2, 3, mr=1, rf=2, script=[[1, 2, 1]]), big(3, 8, mr=1, rf=2, script=[[1, 2, 1]])]]])]}),
+            ("large:repeat", {"top": "group", "progs": [big(2, 1), big(3, 2), big(2, 1)]}),
+            ("large:results-calls", {"top": "call", "progs": [node(1, body=[["call", node(2, base=3, bigres=True)],
+                                                                            ["call", node(3, base=4, bigres=True)]])]}),
+        ]
+    return cs
+
+
 # ---------------------------------------------------------------- implementation side
 def measure_transport(scratch):
     """The state backend's exception round trip (serialize_exception -> deserialize_exception) on both
@@ -490,19 +523,19 @@ def run_impl(mode, case, scratch, slots=1, tag="x", timeout=40.0, inject=None):
 
     def client():
         try:
-            kw = {"spec": p0} if p0.get("extra") is None else {"spec": p0, "extra": p0["extra"]}
+            kw = T.call_kwargs(p0)
             if top == "call":
                 inv = reg.plain[T.key_of(p0)](**kw)
                 box["inv"] = inv
-                v = inv.result
+                v = T.unwrap(inv.result)
             elif top == "direct":
-                v = reg.direct[T.key_of(p0)](**kw)
+                v = T.unwrap(reg.direct[T.key_of(p0)](**kw))
             elif top == "group":
                 task = reg.plain[T.key_of(p0)]
                 params, common = T.group_params(task, progs, case.get("shift"))
                 g = task.parallelize(params, common) if common else task.parallelize(params)
                 reg.launched.extend(g.invocations)
-                v = sum(g.results)
+                v = sum(T.unwrap(r) for r in g.results)
             else:
                 v = reg.dpar[T.key_of(p0)](spec={"par": progs, "shift": case.get("shift")})
             box["out"] = ["val", v] if type(v) is int else ["nonvalue", type(v).__name__]
@@ -646,9 +679,10 @@ def args_check(obs):
         return []
     e = bad[0]
     return [(f"call-args:{obs['mode']}",
-             f"{obs['mode']}: node {e['node']} was called with extra={e['declared'][0]}, shift={e['declared'][1]} (0 = not passed) "
-             f"but its body received extra={e['args'][0]}, shift={e['args'][1]} ({len(bad)} execution(s) with foreign arguments: "
-             f"parameters of another call of the same parallelized list / common_args)")]
+             f"{obs['mode']}: node {e['node']} was called with extra={e['declared'][0]}, shift={e['declared'][1]}, large-payload mark="
+             f"{e['declared'][2] if len(e['declared']) > 2 else 0} (0 = not passed) but its body received extra={e['args'][0]}, "
+             f"shift={e['args'][1]}, large-payload mark={e['args'][2] if len(e['args']) > 2 else 0} ({len(bad)} execution(s) with "
+             f"foreign arguments: parameters / payload of another call, or common_args)")]
 
 
 def accounting(case, obs):
@@ -847,7 +881,7 @@ def dist_verdicts(case, m, s_obs, d_obs):
 
 # ---------------------------------------------------------------- main
 def build_cases(ctx: Ctx):
-    cases = [(name, c) for name, c in corpus_cases()]
+    cases = [(name, c) for name, c in corpus_cases()] + large_cases(ctx.thorough)
     n_guard = 900 if ctx.thorough else 200
     n_lazy = 300 if ctx.thorough else 60
     for j in range(n_guard):
@@ -1005,6 +1039,7 @@ def main(ctx: Ctx) -> int:
             "batch_corpus": sum(1 for n, _ in cases if n.startswith("batch")),
             "common_args_corpus": sum(1 for n, _ in cases if n.startswith(("common", "percall"))),
             "option_level_corpus": sum(1 for n, _ in cases if n.startswith("opt")),
+            "large_payload_cases": sum(1 for n, _ in cases if n.startswith("large")),
             "app_level_max_retries": dict(Counter(str(app_mr(c) or "default") for _, c in cases)),
             "batch_size(task/app)": dict(Counter(f"{c.get('tbatch')}/{(c.get('app') or {}).get('parallel_batch_size')}" for _, c in cases)),
             "nodes_by_declaration": dict(Counter(("app-level" if n.get("decl") == "a" else ("task:0" if n["mr"] == 0 else "task:>0"))
